@@ -6,6 +6,8 @@
 // The same file is built a second time with -fsanitize=thread (support run; reports go to stderr after a line
 // "C18CLASS <class>").
 #include "c16_probes.h"
+#include "qfield.h"
+#include <recint/recint.h>
 #include <thread>
 #include <atomic>
 #include <unistd.h>
@@ -26,8 +28,48 @@ template <class R> static void pr_rns_const(const R& rns, Sink& s) {
     o << " p="; for (size_t k = 0; k < rns.Primes().size(); ++k) o << (long long)rns.Primes()[k].characteristic() << ","; o << (long long)rns.reciprocal(1);
 }
 
+// QField<Rational>: the field of rationals (no parameters; operator= is deleted).  Fractions are printed as stored (num/den), so a
+// result that was not reduced (Rational::flags switched by somebody else) differs from the sequential digest.
+static void pr_qfield(const QField<Rational>& Q, Sink& s) {
+    s.part("qfield"); OS& o = s.o;
+    static const long N[] = {1, -3, 6, 35, 1000000007L, -12}, D[] = {2, 4, 9, 49, 6, 18};
+    Rational a, b, c, r;
+    for (int i = 0; i < 6; ++i) for (int j = 0; j < 6; j += 2) {
+        Q.init(a, Integer(N[i]), Integer(D[i])); Q.init(b, Integer(N[j]), Integer(D[(j + 1) % 6])); Q.init(c, Integer(N[(i + j) % 6]), Integer(D[(i + 2) % 6]));
+        Q.mul(r, a, b); o << r.nume() << "/" << r.deno() << ","; Q.add(r, a, b); o << r.nume() << "/" << r.deno() << ",";
+        Q.sub(r, a, b); o << r.nume() << "/" << r.deno() << ","; Q.div(r, a, b); o << r.nume() << "/" << r.deno() << ",";
+        Q.axpy(r, a, b, c); o << r.nume() << "/" << r.deno() << ","; Q.axmy(r, a, b, c); o << r.nume() << "/" << r.deno() << ",";
+        Q.maxpy(r, a, b, c); o << r.nume() << "/" << r.deno() << ",";
+        Q.assign(r, c); Q.axpyin(r, a, b); o << r.nume() << "/" << r.deno() << ","; Q.assign(r, c); Q.maxpyin(r, a, b); o << r.nume() << "/" << r.deno() << ",";
+        Q.assign(r, a); Q.mulin(r, b); o << r.nume() << "/" << r.deno() << ","; Q.assign(r, a); Q.addin(r, b); o << r.nume() << "/" << r.deno() << ",";
+        Q.inv(r, a); o << r.nume() << "/" << r.deno() << ","; Q.neg(r, a); o << r.nume() << "/" << r.deno() << " ";
+        o << Q.isZero(a) << Q.isOne(a) << Q.areEqual(a, b) << " ";
+    }
+}
+// "Independent big integers, rationals and fixed-precision integers may likewise be operated on concurrently": no shared object at all
+struct Indep {};
+static void pr_indep(const Indep&, Sink& s) {
+    s.part("indep"); OS& o = s.o;
+    Integer a("123456789012345678901234567890"), b("987654321098765432109876543"), c, d;
+    for (int i = 0; i < 12; ++i) {
+        c = a * b + Integer(i); d = c % (b + i); o << d << ","; c = gcd(a + i, b); o << c << ","; c = pow(Integer(3 + i), (uint64_t)(7 + i)); o << c << ",";
+        c = a; c <<= (i + 1); c -= b; c /= (i + 2); o << c << " ";
+        Rational r(Integer(i + 1), Integer(6)), q(Integer(10), Integer(4 + i)); Rational t = r * q + r / q - q; o << t.nume() << "/" << t.deno() << " ";
+        RecInt::ruint<7> x(123456789u), y(987654321u), z; x *= y; x += (RecInt::ruint<7>)i; z = x * x; z -= y; z /= (RecInt::ruint<7>)(i + 3); o << z << " ";
+    }
+}
+template <class D, void (*PROBE)(const D&, Sink&)> struct BoxNA : Any {      // copy-constructible, not assignable
+    D d;
+    BoxNA(const D& x) : d(x) {}
+    Any* copy() const { return new BoxNA(d); }
+    void assign(const Any&) {}
+    void probe(Sink& s) { PROBE(d, s); }
+};
+
 static Any* make18(const std::string& cls, int P) {
     P &= 3;
+    if (cls == "QField<Rational>") return new BoxNA<QField<Rational>, pr_qfield>(QField<Rational>());
+    if (cls == "Independent<Integer,Rational,ruint>") return new BoxNA<Indep, pr_indep>(Indep());
     if (cls == "IntRNSsystem<vector>") {
         typedef IntRNSsystem<std::vector, std::allocator> R; std::vector<Integer> pr;
         static const long PS[4][5] = {{3, 5, 7, 0, 0}, {11, 13, 17, 19, 0}, {1000003, 1000033, 999983, 65521, 2}, {2, 3, 0, 0, 0}};
